@@ -171,6 +171,12 @@ for _kw in PROBE_KW:
         CUE_REPL.append(_kw + _fill + "!")
 
 
+# very long lines: super-linear behaviour of any per-line processing shows as a budget trip
+for _long in ('    TITLE "a' + " " * 20000 + 'b"', '    TITLE "' + "a." * 10000 + '"', 'FILE "' + "x " * 10000 + '" BINARY',
+              "    INDEX 01 " + "1" * 20000 + ":00:00", "  TRACK " + "9" * 20000 + " AUDIO", "REM " + "-L " * 7000):
+    CUE_REPL.append(_long)
+
+
 def cue_base():
     tracks = [{"number": i + 1, "title": f"T{i + 1}", "indices": [(0, 3 * i), (1, 3 * i + 1)]} for i in range(3)]
     return Q.cue_lines("disc.bin", tracks)
